@@ -26,6 +26,7 @@ import (
 	"os"
 	"path/filepath"
 	"strings"
+	"sync"
 	"time"
 
 	"github.com/osteele/liquid"
@@ -251,27 +252,38 @@ func (c *inclCase) checkDepth(r *Run, caseLine, want string) string {
 	return real
 }
 
-// inclDepthProbe runs the defect's input in a killable process: true when that process survives.
-func inclDepthProbe(r *Run, s depthSpec) bool {
-	w := startWorker()
-	defer func() {
-		w.kill()
-		// the layout the worker materialised (engineCfg.dir names it after the worker's process id)
-		if ds, _ := filepath.Glob(filepath.Join(workDir(), fmt.Sprintf("fs-*-%d", w.cmd.Process.Pid))); len(ds) > 0 {
-			for _, d := range ds {
-				os.RemoveAll(d)
+// includeCycleSurvives runs the input of the defect (a.html = x{% include "a.html" %}, template {% include "a.html" %})
+// in a killable process, once per harness process: alive is false when that process dies or does not return, which is
+// what the unrepaired code does (the goroutine stack overflows). Streams that render cyclic layouts in-process ask
+// first, report the violation under their own property and skip those cases, so that the check itself survives.
+var cycleProbe struct {
+	once              sync.Once
+	alive             bool
+	caseLine, details string
+}
+
+func includeCycleSurvives() (alive bool, caseLine, details string) {
+	cycleProbe.once.Do(func() {
+		w := startWorker()
+		defer func() {
+			w.kill()
+			// the layout the worker materialised (engineCfg.dir names it after the worker's process id)
+			if ds, _ := filepath.Glob(filepath.Join(workDir(), fmt.Sprintf("fs-*-%d", w.cmd.Process.Pid))); len(ds) > 0 {
+				for _, d := range ds {
+					os.RemoveAll(d)
+				}
 			}
+		}()
+		file, src := "x{% include \"a.html\" %}", "{% include \"a.html\" %}"
+		cfg := engineCfg{FS: [][2]string{{"a.html", file}}}
+		cycleProbe.caseLine = robustLine(cfg, src, map[string]*V{})
+		_, status, info := w.call(cycleProbe.caseLine, 60*time.Second)
+		cycleProbe.alive = status == ""
+		if !cycleProbe.alive {
+			cycleProbe.details = fmt.Sprintf("%q with a.html = %q in a separate process: %s %s (a file that includes itself must end the render with an error); the cyclic include cases of this stream are skipped", src, file, status, info)
 		}
-	}()
-	cfg := engineCfg{FS: s.c.diskFS()}
-	line := robustLine(cfg, s.c.Src, s.c.Env)
-	_, status, info := w.call(line, 60*time.Second)
-	if status != "" {
-		r.Violate("C14", "include-cycle-process-death", s.c.depthLine(s.want),
-			fmt.Sprintf("%q with a.html = %q in a separate process: %s %s (a file that includes itself must end the render with an error); the deep and cyclic include family is skipped", s.c.Src, s.c.Files[0].Disk, status, info))
-		return false
-	}
-	return true
+	})
+	return cycleProbe.alive, cycleProbe.caseLine, cycleProbe.details
 }
 
 func inclDepthFamily(r *Run) {
@@ -283,7 +295,10 @@ func inclDepthFamily(r *Run) {
 		}
 		if !probed {
 			probed = true
-			alive = inclDepthProbe(r, specs[0])
+			var details string
+			if alive, _, details = includeCycleSurvives(); !alive {
+				r.Violate("C14", "include-cycle-process-death", specs[0].c.depthLine(specs[0].want), details)
+			}
 		}
 		if !alive {
 			r.Count("depth-family-skipped")
